@@ -131,6 +131,9 @@ def run_templates(prop, outcome, templates, modes=("opt",), validate_vm=True):
                 # the template is outside what the compiler accepts (or crashes it: C03 territory); not a verdict for this property
                 skipped += 1
                 entry["detail"] = res.detail[-300:]
+                if not getattr(res, "crash", False):
+                    # every template of the family is a valid program: a rejection means the template (or the checker) changed
+                    outcome.inconc("template %s (%s) is rejected by the compiler: %s" % (tpl["name"], mode, res.detail[-200:].replace("\n", " ")))
                 if getattr(res, "crash", False):
                     # the checker accepted the template and the translator panicked: no compiled program exists for a program of the family
                     key = "%s:compiler_crash" % tpl["name"]
